@@ -70,6 +70,8 @@ func toBytes(v interface{}) []byte {
 	return r
 }
 
+var rdCache = map[string]*text.Reader{}
+
 var rdExprs = []string{`a+`, `[a_1]+`, `\s+`, `a|aa`, `.`, `(a)(_)?`}
 
 func readerMain(mode string, a args) {
@@ -87,8 +89,17 @@ func readerMain(mode string, a args) {
 			if len(c.Data) > 0 {
 				nontriv++
 			}
-			f, _ := fileAt(bytesOf(c.Data), c.Base)
-			rd := text.NewReader(f)
+			// one file and one reader per (content, base): the primitives are applied to a reader that has been used before
+			key := fmt.Sprintf("%v@%d", c.Data, c.Base)
+			rd := rdCache[key]
+			if rd == nil {
+				if len(rdCache) > 4000 {
+					rdCache = map[string]*text.Reader{}
+				}
+				f, _ := fileAt(bytesOf(c.Data), c.Base)
+				rd = readerFor(f)
+				rdCache[key] = rd
+			}
 			pos := parsley.Pos(c.Pos)
 			cmp := func(what string, got, want interface{}) {
 				comps++
@@ -230,7 +241,7 @@ func readerMain(mode string, a args) {
 		}
 		r := rand.New(rand.NewSource(int64(a.num("seed", 1))))
 		n, maxl := a.num("n", 10), a.num("maxlen", 60)
-		alpha := []byte{'a', 'a', '_', '1', 'b', ' ', '\t', '\n', '\f', '\r', 0xC3, 0xA9, 0xE2, 0x82, 0xAC, 0xFF, '9'}
+		alpha := []byte{'a', 'a', '_', '1', 'b', ' ', '\t', '\n', '\f', '\r', 0xC3, 0xA9, 0xE2, 0x82, 0xAC, 0xFF, '9', '\v', 0xC2, 0xA0, 0x85, 0}
 		for c := 0; c < n; c++ {
 			l := r.Intn(maxl + 1)
 			raw := make([]byte, l)
